@@ -226,6 +226,28 @@ class C15(Prop):
             if i is not None:
                 v.bad('variant-differs:' + label.split(':')[0], '[%s] %r gives %r at sample %d but its expansion %r '
                       'gives %r; data=%s' % (label, sugar, a[i], i, expansion, b[i], data))
+        if 'unless' in ops:
+            # the unless law under an interface-aware semantics (both spellings, same io assignment)
+            import random
+            from rtverif.props.c06 import SEMS, hook_discrete
+            r2 = random.Random(case.get('vseed', 0) + 17)
+            sem = r2.choice(SEMS[1:])
+            io = dict((k, r2.choice(['input', 'output'])) for k in names)
+            v.info['variant:unless-expansion-ia'] = 1
+            try:
+                exp_ia = refd.evaluate(f, data, n, pred_hook=hook_discrete(sem, io))
+                sdia = {'semantics': sem, 'io': io}
+                a = drive.values(drive.dt_offline(text, names, data, n, sd=sdia))
+                b = drive.values(drive.dt_offline(lang.to_text(expand_unless(f)), names, data, n, sd=sdia))
+                i = next((i for i in range(n) if exp_ia[i] == exp_ia[i] and not refd.same(a[i], b[i], rel)), None)
+                if i is not None:
+                    v.bad('variant-differs:unless-expansion-ia', '%r [%s, io=%s] gives %r at sample %d but its expansion '
+                          'gives %r; data=%s' % (text, sem, io, a[i], i, b[i], data))
+            except refd.Undefined:
+                pass
+            except Exception as e:
+                v.bad('variant-raises:unless-expansion-ia', '%r [%s, io=%s] raised %s: %s' % (text, sem, io,
+                                                                                          type(e).__name__, e))
         if all(g[1] is None for g in lang.walk(f)) and 'unless' not in ops:
             v.info['variant:ltl'] = 1
             try:
